@@ -1,9 +1,531 @@
-//! group `pool` — stub (not built yet).
+//! group `pool` (C29) — the UNMODIFIED thread-pool source of the repository under test
+//! (`src/thread.rs`, copied by build.rs with only its std::sync/thread/time imports rewritten)
+//! executed under the shuttle controlled scheduler; every execution's lock-granularity event log
+//! is one case, validated by the Lean driver as a path of the model `QV.Pool`.
+//!
+//! case line:  `pool <scenario> <schedule> <trace>`
+//!   scenario  `<n_perm>.<linger>.<psh>.<late>.<aw2>.<sdlate>.<subs>`  — permanent workers, lingering (0/1),
+//!             a ThreadPool::shut_down call before the group's (0/1), a submission after
+//!             await_shutdown returned (0/1), a second awaiter (0/1), shut_down called only after all
+//!             submitter threads have returned (0/1; else concurrently), and per submitter thread the
+//!             kinds of the tasks it submits (`b` = submit, `o` = submit_or_spawn), joined by `-`
+//!   schedule  `r:<seed>` random, `p:<depth>:<seed>` PCT, `d:<index>` index-th DFS execution
+//!   trace     `;`-separated events (fields `,`-separated), see lean/QV/Driver/Pool.lean
+//! The implementation column is `ok` when re-executing (scenario, schedule) reproduces the trace
+//! (always, at generation time); the model column says whether the trace is a path of the model;
+//! the spec column evaluates the property's end conditions on the trace.
 #![allow(unused)]
 use crate::common::*;
 
+#[cfg(not(feature = "pool"))]
 pub fn run(_op: &str, _a: &[&str]) -> Option<String> {
     None
 }
 
-pub fn gen(_rng: &mut Rng, _thorough: bool, _em: &mut Emitter) {}
+#[cfg(not(feature = "pool"))]
+pub fn gen(_rng: &mut Rng, _thorough: bool, _em: &mut Emitter) {
+    eprintln!("group pool: harness built without feature `pool`");
+    std::process::exit(2);
+}
+
+#[cfg(feature = "pool")]
+pub use real::{gen, run, sub_main};
+
+#[cfg(feature = "pool")]
+#[allow(dead_code, unused_imports, clippy::all)]
+pub mod tut {
+    include!(concat!(env!("OUT_DIR"), "/thread_under_test.rs"));
+}
+
+#[cfg(feature = "pool")]
+mod real {
+    use super::tut::{verif_probe, ThreadGroup, ThreadPool};
+    use crate::common::*;
+    use crate::pool_shim::{self as shim, log, spawn_ext};
+    use shuttle::scheduler::{DfsScheduler, PctScheduler, RandomScheduler, Schedule, Scheduler, Task, TaskId};
+    use std::panic::{catch_unwind, AssertUnwindSafe};
+    use std::sync::atomic::{AtomicUsize, Ordering::SeqCst};
+    use std::sync::{Arc, Mutex as StdMutex};
+    use std::time::Duration;
+
+    #[derive(Clone, Debug, PartialEq)]
+    pub struct Scenario {
+        n_perm: usize,
+        linger: bool,
+        psh: bool,
+        late: bool,
+        aw2: bool,
+        sdlate: bool,
+        subs: Vec<Vec<u8>>, // b'b' | b'o'
+    }
+
+    impl Scenario {
+        fn token(&self) -> String {
+            let subs: Vec<String> = self.subs.iter().map(|s| String::from_utf8(s.clone()).unwrap()).collect();
+            format!(
+                "{}.{}.{}.{}.{}.{}.{}",
+                self.n_perm, self.linger as u8, self.psh as u8, self.late as u8, self.aw2 as u8, self.sdlate as u8,
+                subs.join("-")
+            )
+        }
+        fn parse(s: &str) -> Option<Scenario> {
+            let f: Vec<&str> = s.split('.').collect();
+            if f.len() != 7 {
+                return None;
+            }
+            let b = |x: &str| match x {
+                "0" => Some(false),
+                "1" => Some(true),
+                _ => None,
+            };
+            let subs: Vec<Vec<u8>> = if f[6].is_empty() {
+                vec![]
+            } else {
+                f[6].split('-').map(|x| x.as_bytes().to_vec()).collect()
+            };
+            if subs.iter().any(|s| s.iter().any(|c| *c != b'b' && *c != b'o')) {
+                return None;
+            }
+            Some(Scenario { n_perm: f[0].parse().ok()?, linger: b(f[1])?, psh: b(f[2])?, late: b(f[3])?, aw2: b(f[4])?, sdlate: b(f[5])?, subs })
+        }
+    }
+
+    static RESULT: StdMutex<Option<String>> = StdMutex::new(None);
+    static NEXT_TASK: AtomicUsize = AtomicUsize::new(0);
+    static CVS: StdMutex<Option<[usize; 3]>> = StdMutex::new(None);
+
+    fn submit_one(pool: &Arc<ThreadPool>, kind: u8) {
+        let t = shim::cur_tid();
+        let k = NEXT_TASK.fetch_add(1, SeqCst);
+        log(format!("{},{t},{k}", if kind == b'b' { "cs" } else { "co" }));
+        let task = move || {
+            let me = shim::cur_tid();
+            log(format!("rn,{me},{k}"));
+            shuttle::thread::yield_now();
+            log(format!("fn,{me},{k}"));
+        };
+        let r = if kind == b'b' { pool.submit(task) } else { pool.submit_or_spawn(task) };
+        log(format!("rt,{t},{},{}", if kind == b'b' { "cs" } else { "co" }, if r.is_ok() { "ok" } else { "rej" }));
+    }
+
+    /// one execution of the real code (runs inside a shuttle execution)
+    fn scenario_body(sc: &Scenario) {
+        shim::begin_execution(verif_probe::snapshot, 2, 1);
+        NEXT_TASK.store(0, SeqCst);
+        *CVS.lock().unwrap() = None;
+        let group = ThreadGroup::new();
+        log(format!("cp,0,{}", sc.n_perm));
+        let linger = if sc.linger { Duration::from_secs(5) } else { Duration::ZERO };
+        let pool = group.start_pool(Some("p".to_string()), sc.n_perm, linger).expect("start_pool failed");
+        log("rt,0,cp,ok".to_string());
+        let cvs = verif_probe::cv_ids(&group, &pool);
+        *CVS.lock().unwrap() = Some(cvs);
+        shim::with_exec(|e| e.allow_spawn_failure = true);
+        let mut handles = Vec::new();
+        let mut sub_handles = Vec::new();
+        for kinds in sc.subs.iter().cloned() {
+            let pool = pool.clone();
+            sub_handles.push(spawn_ext(move || {
+                for k in kinds {
+                    submit_one(&pool, k);
+                }
+            }));
+        }
+        let psh_handle = if sc.psh {
+            let pool = pool.clone();
+            Some(spawn_ext(move || {
+                let t = shim::cur_tid();
+                log(format!("cq,{t}"));
+                pool.shut_down();
+                log(format!("rt,{t},cq,ok"));
+            }))
+        } else {
+            None
+        };
+        let mut wait_for = Vec::new();
+        if sc.sdlate {
+            wait_for = std::mem::take(&mut sub_handles);
+        }
+        {
+            let group = group.clone();
+            handles.push(spawn_ext(move || {
+                for h in wait_for {
+                    h.join().unwrap();
+                }
+                // ThreadPool::shut_down must not race with ThreadGroup::shut_down (Slab::remove
+                // would panic): the group shutter waits for the pool shutter first
+                if let Some(h) = psh_handle {
+                    h.join().unwrap();
+                }
+                let t = shim::cur_tid();
+                log(format!("cd,{t}"));
+                group.shut_down();
+                log(format!("rt,{t},cd,ok"));
+            }));
+        }
+        if sc.aw2 {
+            let group = group.clone();
+            handles.push(spawn_ext(move || {
+                let t = shim::cur_tid();
+                log(format!("ca,{t}"));
+                group.await_shutdown();
+                log(format!("rt,{t},ca,ok"));
+            }));
+        }
+        log("ca,0".to_string());
+        group.await_shutdown();
+        log("rt,0,ca,ok".to_string());
+        if sc.late {
+            submit_one(&pool, if shim::rand_below(2) == 0 { b'b' } else { b'o' });
+        }
+        for h in handles.into_iter().chain(sub_handles) {
+            h.join().unwrap();
+        }
+        let log = shim::take_log();
+        *RESULT.lock().unwrap() = Some(finish_trace(log, Some(cvs)));
+    }
+
+    /// replace condvar ids by their roles
+    fn finish_trace(log: Vec<String>, cvs: Option<[usize; 3]>) -> String {
+        let name = |id: &str| -> String {
+            if let (Some(c), Ok(i)) = (cvs, id.parse::<usize>()) {
+                if i == c[0] {
+                    return "s".into();
+                } else if i == c[1] {
+                    return "t".into();
+                } else if i == c[2] {
+                    return "a".into();
+                }
+            }
+            format!("cv{id}")
+        };
+        let mut out = Vec::with_capacity(log.len());
+        for ev in log {
+            let f: Vec<&str> = ev.split(',').collect();
+            match f[0] {
+                "n1" => out.push(format!("n1,{},{},{}", f[1], name(f[2]), f[3])),
+                "na" => out.push(format!("na,{},{}", f[1], name(f[2]))),
+                "wt" => out.push(format!("wt,{},{},{},{},{},{},{}", f[1], f[2], name(f[3]), f[4], f[5], f[6], f[7])),
+                _ => out.push(ev),
+            }
+        }
+        out.join(";")
+    }
+
+    #[derive(Clone, Debug, PartialEq)]
+    enum Sched {
+        Random(u64),
+        Pct(usize, u64),
+        Dfs(usize),
+    }
+
+    impl Sched {
+        fn token(&self) -> String {
+            match self {
+                Sched::Random(s) => format!("r:{s}"),
+                Sched::Pct(d, s) => format!("p:{d}:{s}"),
+                Sched::Dfs(i) => format!("d:{i}"),
+            }
+        }
+        fn parse(s: &str) -> Option<Sched> {
+            let f: Vec<&str> = s.split(':').collect();
+            match (f[0], f.len()) {
+                ("r", 2) => Some(Sched::Random(f[1].parse().ok()?)),
+                ("p", 3) => Some(Sched::Pct(f[1].parse().ok()?, f[2].parse().ok()?)),
+                ("d", 2) => Some(Sched::Dfs(f[1].parse().ok()?)),
+                _ => None,
+            }
+        }
+    }
+
+    const MAX_STEPS: usize = 40_000;
+
+    fn config() -> shuttle::Config {
+        let mut c = shuttle::Config::new();
+        // a panic (not a silent abandon): abandoned executions are force-unwound by shuttle, and
+        // the destructors of the code under test (OneshotHandle::drop …) cannot run then
+        c.max_steps = shuttle::MaxSteps::FailAfter(MAX_STEPS);
+        c.failure_persistence = shuttle::FailurePersistence::None;
+        c.silence_warnings = true;
+        c
+    }
+
+    // ------------------------------------------------------------------------------------------
+    // Executions run in a worker process.  When shuttle reports a deadlock (no runnable thread),
+    // the step bound is hit, or the code under test panics, the panic hook writes the case with
+    // the partial trace and a marker (`dl` / `ms` / `pn`) and exits the process without unwinding
+    // (unwinding would run the destructors of blocked threads outside the scheduler); the
+    // supervisor restarts the worker after the failed plan item.
+    // ------------------------------------------------------------------------------------------
+
+    static CURRENT: StdMutex<Option<(String, String)>> = StdMutex::new(None);
+    static OUT: StdMutex<Option<std::fs::File>> = StdMutex::new(None);
+
+    fn write_line(line: &str) {
+        use std::io::Write;
+        let mut g = OUT.lock().unwrap_or_else(|e| e.into_inner());
+        match g.as_mut() {
+            Some(f) => {
+                let _ = writeln!(f, "{line}");
+                let _ = f.flush();
+            }
+            None => println!("{line}"),
+        }
+    }
+
+    fn install_hook() {
+        std::panic::set_hook(Box::new(|info| {
+            let msg = info
+                .payload()
+                .downcast_ref::<String>()
+                .cloned()
+                .or_else(|| info.payload().downcast_ref::<&str>().map(|s| s.to_string()))
+                .unwrap_or_default();
+            let marker = if msg.contains("deadlock") {
+                "dl"
+            } else if msg.contains("max_steps") || msg.contains("exceeded") {
+                "ms"
+            } else {
+                "pn"
+            };
+            let mut log = shim::try_take_log();
+            log.push(marker.to_string());
+            let cvs = CVS.try_lock().ok().and_then(|g| *g);
+            let trace = finish_trace(log, cvs);
+            let cur = CURRENT.try_lock().ok().and_then(|g| g.clone());
+            if let Some((sc, sched)) = cur {
+                if std::env::var("QVH_PANIC_MSG").is_ok() {
+                    eprintln!("pool worker: {marker}: {msg}");
+                }
+                write_line(&format!("pool {sc} {sched} {trace}"));
+            }
+            std::process::exit(3);
+        }));
+    }
+
+    fn set_current(sc: &Scenario, sched: &Sched) {
+        *CURRENT.lock().unwrap() = Some((sc.token(), sched.token()));
+    }
+
+    /// one execution under a fresh scheduler built from a `Sched` token (worker process only)
+    fn execute(sc: &Scenario, sched: &Sched) -> Option<String> {
+        *RESULT.lock().unwrap() = None;
+        set_current(sc, sched);
+        let sc2 = sc.clone();
+        let body = move || scenario_body(&sc2);
+        match sched {
+            Sched::Random(seed) => {
+                shuttle::Runner::new(RandomScheduler::new_from_seed(*seed, 1), config()).run(body);
+            }
+            Sched::Pct(depth, seed) => {
+                shuttle::Runner::new(PctScheduler::new_from_seed(*seed, *depth, 1), config()).run(body);
+            }
+            Sched::Dfs(index) => {
+                // the index-th execution of the depth-first enumeration
+                shuttle::Runner::new(DfsScheduler::new(Some(*index + 1), true), config()).run(body);
+            }
+        }
+        RESULT.lock().unwrap().take()
+    }
+
+    /// a whole DFS enumeration in one runner
+    fn dfs_batch(sc: &Scenario, max: usize) {
+        let n = Arc::new(AtomicUsize::new(0));
+        let sc2 = sc.clone();
+        shuttle::Runner::new(DfsScheduler::new(Some(max), true), config()).run(move || {
+            let i = n.fetch_add(1, SeqCst);
+            let sched = Sched::Dfs(i);
+            set_current(&sc2, &sched);
+            *RESULT.lock().unwrap() = None;
+            scenario_body(&sc2);
+            if let Some(t) = RESULT.lock().unwrap().take() {
+                write_line(&case_line(&sc2, &sched, &t));
+            }
+        });
+    }
+
+    fn case_line(sc: &Scenario, sched: &Sched, trace: &str) -> String {
+        format!("pool {} {} {}", sc.token(), sched.token(), trace)
+    }
+
+    enum Item {
+        Exec(Scenario, Sched),
+        Dfs(Scenario, usize),
+    }
+
+    fn random_scenario(rng: &mut Rng) -> Scenario {
+        let n_sub = rng.range(1, 4);
+        let mut subs = Vec::new();
+        for _ in 0..n_sub {
+            let n = rng.range(1, 2);
+            subs.push((0..n).map(|_| if rng.chance(1, 2) { b'b' } else { b'o' }).collect());
+        }
+        let n_perm = rng.range(0, 2);
+        // shutting down only after the submitters returned needs every blocking submit to find a
+        // worker eventually: permanent workers, or only submit_or_spawn
+        let may_late = n_perm > 0 || subs.iter().all(|s: &Vec<u8>| s.iter().all(|c| *c == b'o'));
+        Scenario {
+            n_perm,
+            linger: rng.chance(1, 2),
+            psh: rng.chance(1, 6),
+            late: rng.chance(1, 3),
+            aw2: rng.chance(1, 4),
+            sdlate: may_late && rng.chance(1, 2),
+            subs,
+        }
+    }
+
+    fn plan(rng: &mut Rng, thorough: bool) -> Vec<Item> {
+        let mut items = Vec::new();
+        let pick = |rng: &mut Rng, i: usize| {
+            if i % 3 == 0 {
+                Sched::Pct(rng.range(1, 5), rng.next() >> 16)
+            } else {
+                Sched::Random(rng.next() >> 16)
+            }
+        };
+        // 1. the family of the repaired defect D11 first: lingering auxiliary workers only
+        let n_d11 = if thorough { 6000 } else { 800 };
+        for i in 0..n_d11 {
+            let sc = Scenario {
+                n_perm: 0,
+                linger: true,
+                psh: false,
+                late: false,
+                aw2: false,
+                sdlate: i % 2 == 0 && i % 8 != 0,
+                subs: vec![b"o".to_vec(), if i % 2 == 0 { b"o".to_vec() } else { b"b".to_vec() }],
+            };
+            let sched = pick(rng, i);
+            items.push(Item::Exec(sc, sched));
+        }
+        // 2. random scenarios under random and PCT schedules
+        let n_rand = if thorough { 40_000 } else { 3000 };
+        for i in 0..n_rand {
+            let sc = random_scenario(rng);
+            let sched = pick(rng, i);
+            items.push(Item::Exec(sc, sched));
+        }
+        // 3. bounded depth-first enumeration of small scenarios
+        let dfs_max = if thorough { 20_000 } else { 1200 };
+        for sc in [
+            Scenario { n_perm: 0, linger: true, psh: false, late: false, aw2: false, sdlate: true, subs: vec![b"o".to_vec()] },
+            Scenario { n_perm: 1, linger: false, psh: false, late: false, aw2: false, sdlate: false, subs: vec![b"b".to_vec()] },
+            Scenario { n_perm: 0, linger: true, psh: false, late: false, aw2: false, sdlate: true, subs: vec![b"oo".to_vec()] },
+        ] {
+            items.push(Item::Dfs(sc, dfs_max));
+        }
+        items
+    }
+
+    /// `qvh pool-worker <tier> <seed> <skip> <out>` and `qvh pool-exec <scenario> <sched>`
+    pub fn sub_main(args: &[String]) -> i32 {
+        install_hook();
+        if args[1] == "pool-exec" && args.len() >= 4 {
+            let (Some(sc), Some(sched)) = (Scenario::parse(&args[2]), Sched::parse(&args[3])) else {
+                return 2;
+            };
+            match execute(&sc, &sched) {
+                Some(t) => println!("{}", case_line(&sc, &sched, &t)),
+                None => println!("incomplete"),
+            }
+            return 0;
+        }
+        if args[1] == "pool-worker" && args.len() >= 6 {
+            let thorough = args[2] == "thorough";
+            let seed: u64 = args[3].parse().expect("seed");
+            let skip: usize = args[4].parse().expect("skip");
+            let out = &args[5];
+            *OUT.lock().unwrap() = Some(
+                std::fs::OpenOptions::new().create(true).append(true).open(out).expect("open part file"),
+            );
+            let progress = format!("{out}.progress");
+            let items = plan(&mut Rng::new(seed), thorough);
+            for (i, item) in items.iter().enumerate().skip(skip) {
+                std::fs::write(&progress, i.to_string()).expect("progress");
+                match item {
+                    Item::Exec(sc, sched) => {
+                        if let Some(t) = execute(sc, sched) {
+                            write_line(&case_line(sc, sched, &t));
+                        }
+                    }
+                    Item::Dfs(sc, max) => dfs_batch(sc, *max),
+                }
+            }
+            std::fs::write(&progress, items.len().to_string()).expect("progress");
+            return 0;
+        }
+        2
+    }
+
+    fn self_exe() -> std::path::PathBuf {
+        std::env::current_exe().expect("current_exe")
+    }
+
+    pub fn run(op: &str, a: &[&str]) -> Option<String> {
+        if op != "pool" {
+            return None;
+        }
+        if a.len() != 3 {
+            return Some("bad-op".into());
+        }
+        if Scenario::parse(a[0]).is_none() || Sched::parse(a[1]).is_none() {
+            return Some("bad-op".into());
+        }
+        // re-execute the real code under the recorded schedule; the trace must be reproduced
+        let out = std::process::Command::new(self_exe())
+            .args(["pool-exec", a[0], a[1]])
+            .stderr(std::process::Stdio::null())
+            .output();
+        Some(match out {
+            Ok(o) => {
+                let text = String::from_utf8_lossy(&o.stdout);
+                let line = text.lines().last().unwrap_or("");
+                let trace = line.splitn(4, ' ').nth(3).unwrap_or("");
+                if trace == a[2] {
+                    "ok".into()
+                } else {
+                    "err:replay-diverged".into()
+                }
+            }
+            Err(_) => "err:replay-failed".into(),
+        })
+    }
+
+    pub fn gen(rng: &mut Rng, thorough: bool, em: &mut Emitter) {
+        let t0 = std::time::Instant::now();
+        let seed = rng.next() >> 1;
+        let part = std::env::temp_dir().join(format!("qvh-pool-{}-{}.part", std::process::id(), seed));
+        let progress = format!("{}.progress", part.display());
+        let _ = std::fs::remove_file(&part);
+        let mut skip = 0usize;
+        let mut restarts = 0usize;
+        loop {
+            let st = std::process::Command::new(self_exe())
+                .args(["pool-worker", if thorough { "thorough" } else { "quick" }, &seed.to_string(), &skip.to_string()])
+                .arg(&part)
+                .stderr(if std::env::var("QVH_PANIC_MSG").is_ok() { std::process::Stdio::inherit() } else { std::process::Stdio::null() })
+                .status()
+                .expect("cannot start the pool worker");
+            if st.success() {
+                break;
+            }
+            restarts += 1;
+            let done: usize = std::fs::read_to_string(&progress).ok().and_then(|s| s.trim().parse().ok()).unwrap_or(skip);
+            skip = done + 1;
+            if restarts > 300 {
+                eprintln!("pool: giving up after {restarts} failed executions");
+                break;
+            }
+        }
+        let text = std::fs::read_to_string(&part).unwrap_or_default();
+        for line in text.lines() {
+            if !line.is_empty() {
+                em.emit(line, "ok");
+            }
+        }
+        let _ = std::fs::remove_file(&part);
+        let _ = std::fs::remove_file(&progress);
+        eprintln!("pool: {} executions, {} worker restarts (failed executions), {:.1} s", em.n, restarts, t0.elapsed().as_secs_f64());
+    }
+}
